@@ -151,3 +151,65 @@ func c12NilContradiction(c *Ctx) {
 	c.check(guarded >= 60, "nil-guards/recognised", "", fmt.Sprintf("%d uses recognised as sitting on the non-nil edge of their own nil test; none sits on the nil edge", guarded),
 		fmt.Sprintf("only %d nil-guarded uses recognised: the matcher no longer sees the guards it was confirmed on", guarded))
 }
+
+// c12Unescape: the decoder's output buffer. The decoder writes buf[idx] with idx running from 0 and leaves as soon as
+// idx == len(buf); that is in bounds only if the buffer is non-empty whenever a byte is decoded: it is the caller's
+// buffer on the len != 0 edge, or a fresh one as long as the input (the loop runs only while input is left).
+func c12Unescape(c *Ctx) {
+	f := c.fn("unescapeData")
+	n := 0
+	eachInstr(f, func(in ssa.Instruction) {
+		st, ok := in.(*ssa.Store)
+		if !ok {
+			return
+		}
+		ia, ok := st.Addr.(*ssa.IndexAddr)
+		if !ok {
+			return
+		}
+		if _, isSlice := ia.X.Type().Underlying().(*types.Slice); !isSlice {
+			return // argument arrays of calls
+		}
+		n++
+		good := true
+		for _, l := range origins(ia.X, originOpts{}) {
+			switch x := l.V.(type) {
+			case *ssa.MakeSlice:
+				lc, _ := callOf(x.Len)
+				if lc == nil || calleeID(&lc.Call) != "builtin len" || !isVar("data")(lc.Call.Args[0]) {
+					good = false
+				}
+			default:
+				nonEmpty := false
+				for _, fc := range l.facts() {
+					op, xx, y, ok := cmpFact(fc)
+					if lc, _ := callOf(xx); ok && (op == token.NEQ || op == token.GTR) && isConstIntV(0)(y) && lc != nil && calleeID(&lc.Call) == "builtin len" && sameValue(lc.Call.Args[0], l.V) {
+						nonEmpty = true
+					}
+				}
+				if !nonEmpty {
+					good = false
+				}
+			}
+		}
+		// and the write position is the running count that triggers the return at len(buf)
+		c.check(good, fmt.Sprintf("unescapeData/out-buffer-nonempty.%d", n), c.ipos(st), "the buffer written is the caller's non-empty buffer or a fresh one as long as the input", "the decoder can write into an empty output buffer (index out of range on the first decoded byte)")
+	})
+	if n == 0 {
+		c.undecided("unescapeData/out-buffer-nonempty", "no indexed store found in the decoder")
+	}
+	// leaves when full: a return on the idx == len(buf) edge
+	full := false
+	eachInstr(f, func(in ssa.Instruction) {
+		if !isNilErrReturn(in) {
+			return
+		}
+		for _, fc := range factsAt(in.Block()) {
+			op, _, y, ok := cmpFact(fc)
+			if lc, _ := callOf(y); ok && op == token.EQL && lc != nil && calleeID(&lc.Call) == "builtin len" {
+				full = true
+			}
+		}
+	})
+	c.check(full, "unescapeData/returns-when-full", c.pos(f.Pos()), "the decoder returns as soon as the output buffer is full", "the decoder does not stop when the output buffer is full (index out of range)")
+}
